@@ -23,7 +23,12 @@ Relaxed == [resolve_entities |-> TRUE, load_dtd |-> TRUE, dtd_validation |-> FAL
 External == {"ext_general_file", "ext_general_http", "ext_general_ftp", "ext_param_file", "ext_param_http", "ext_dtd_file", "ext_dtd_http", "xinclude_file"}
 Internal == {"internal_entity"}
 Bombs    == {"laughs_3x4", "laughs_10x6", "laughs_10x9", "quadratic_200k", "nest_300", "nest_5000", "attrs_50000", "entity_depth_50"}
+\* the thorough tier adds a grid of sizes around libxml2's limits; for these the requirement is the weaker one:
+\* nothing expanded, nothing escapes, bounded time and memory (refused OR harmless)
+BombsMore == {"laughs_2x12", "laughs_5x5", "laughs_5x8", "laughs_20x3", "laughs_20x5", "laughs_40x4", "quadratic_20k", "quadratic_1000k",
+              "nest_200", "nest_255", "nest_256", "nest_257", "nest_1000", "nest_20000", "attrs_1000", "attrs_200000", "entity_depth_200"}
 Kinds    == External \cup Internal \cup Bombs
+KindsMore == Kinds \cup BombsMore
 \* would the attack get through with these parser settings?
 Resolves(s, k) == CASE k \in {"ext_general_file"} -> s.resolve_entities
                     [] k \in {"ext_general_http", "ext_general_ftp"} -> s.resolve_entities /\ ~s.no_network
@@ -67,6 +72,9 @@ Applies(a) == /\ (a.framing = "multipart" => a.transport = "wsgi" /\ a.prot # "x
               /\ (a.kind = "attrs_50000" => a.pos = "attr_value")
               /\ (a.kind \in {"ext_dtd_file", "ext_dtd_http", "ext_param_file", "ext_param_http"} => a.pos = "text_unicode")   \* these live in the prolog
 Attacks == {a \in [kind : Kinds, pos : Positions, prot : Protocols, transport : Transports, framing : Framings] : Applies(a)}
+AppliesMore(a) == /\ (a.framing = "multipart" => a.transport = "wsgi" /\ a.prot # "xml")
+                  /\ (IF a.kind \in {"attrs_1000", "attrs_200000"} THEN a.pos = "attr_value" ELSE a.pos \in {"text_unicode", "text_nested"})
+AttacksMore == Attacks \cup {a \in [kind : BombsMore, pos : Positions, prot : Protocols, transport : Transports, framing : Framings] : AppliesMore(a)}
 
 \* what the driver observes for one attack against a DEFAULT-configured endpoint:
 \*   [called, fault, client, escape, canary (its content seen by user code or in the response), expanded (an internal entity's
@@ -78,11 +86,11 @@ Safe(a, o) ==
   /\ ~o.canary /\ ~o.file_opened /\ ~o.net_contact /\ ~o.escape
   /\ (a.kind \in Internal /\ a.pos # "attr_value" => ~o.expanded)     \* (attribute values: libxml2 substitutes internal entities while normalizing them)
   /\ (a.kind \in Refusable => ~o.called /\ o.fault /\ o.client)
-  /\ (a.kind \in Bombs => ~o.expanded)
+  /\ (a.kind \in Bombs \cup BombsMore => ~o.expanded)
   /\ o.seconds10 <= 50 /\ o.mb <= 300
 Fails(a, o) == (IF o.canary THEN {"CanaryLeaked"} ELSE {}) \cup (IF o.file_opened THEN {"FileOpened"} ELSE {})
                \cup (IF o.net_contact THEN {"NetworkContacted"} ELSE {}) \cup (IF o.escape THEN {"Escape"} ELSE {})
-               \cup (IF o.expanded /\ (a.kind \in Bombs \/ (a.kind \in Internal /\ a.pos # "attr_value")) THEN {"EntityExpanded"} ELSE {})
+               \cup (IF o.expanded /\ (a.kind \in Bombs \cup BombsMore \/ (a.kind \in Internal /\ a.pos # "attr_value")) THEN {"EntityExpanded"} ELSE {})
                \cup (IF a.kind \in Refusable /\ ~(~o.called /\ o.fault /\ o.client) THEN {"BombNotRefused"} ELSE {})
                \cup (IF o.seconds10 > 50 \/ o.mb > 300 THEN {"Unbounded"} ELSE {})
 ASSUME DefaultsAreSafe /\ RelaxedIsNot
